@@ -31,6 +31,7 @@ class AlgDomain(EventsMixin, Domain):
     self.axioms = []          # rewrite rules (pattern, replacement)
     self.decomp = {}          # key of decomposed matrix -> names
     self.exprs = {}           # fresh symbol name -> Poly it denotes
+    self.divisions = []       # divisions by a data-dependent scalar
     self.summaries = {'_util.check_input': self._sum_check_input,
                       '_util.validate_vector': lambda a, k: a[0]}
 
@@ -103,6 +104,10 @@ class AlgDomain(EventsMixin, Domain):
     if isinstance(op, ast.Mult):
       return self._mul(a, b)
     if isinstance(op, ast.Div):
+      if isinstance(b, tuple) and b and b[0] == 'sred' and \
+              isinstance(a, (Poly, Lin, ElemProd)):
+        self.divisions.append((b, self.site(node)))
+        return UNKNOWN
       nb = self._num(b)
       if nb is not None and nb != 0:
         return self._mul(a, Lin({}, 1 / frac(nb)))
@@ -371,7 +376,7 @@ class AlgDomain(EventsMixin, Domain):
         return a
       return Lin({('abs', a): 1})
     if isinstance(a, Poly) and a.kind in ('rows', 'vec'):
-      return Poly({(('abs', a.key()),): Fraction(1)}, a.kind)
+      return Poly({(A('abs(%r)' % (a,), a.kind),): Fraction(1)}, a.kind)
     return UNKNOWN
 
   x_numpy_absolute = x_numpy_abs
@@ -460,6 +465,8 @@ class AlgDomain(EventsMixin, Domain):
     o = kwargs.get('ord') or (args[1] if len(args) > 1 else None)
     if o is not None and not (o.c is not NOCONST and o.const() in (None, 2)):
       return UNKNOWN
+    if isinstance(a, Poly) and a.kind == 'rows' and axis is None:
+      return ('sred', 'norm', a.key())
     if isinstance(a, Poly) and a.kind in ('rows', 'vec'):
       s = self._sum(ElemProd(a, a), axis)
       return self._sqrt(s)
@@ -515,8 +522,34 @@ class AlgDomain(EventsMixin, Domain):
       return Lin({('roc_auc', ('labels', y.origin), s.d): 1})
     return UNKNOWN
 
+  def _reduce(self, name, d):
+    if isinstance(d, (Poly, Lin, ElemProd)):
+      return ('sred', name, d.key())
+    return UNKNOWN
+
+  def _red_ext(name):
+    def f(self, args, kwargs, node, st):
+      if args and self._axis(kwargs, args, 1) is None:
+        return self._reduce(name, args[0].d)
+      return UNKNOWN
+    return f
+
+  x_numpy_max = _red_ext('max')
+  x_numpy_amax = _red_ext('max')
+  x_numpy_min = _red_ext('min')
+  x_numpy_amin = _red_ext('min')
+  x_numpy_std = _red_ext('std')
+  x_builtins_max = _red_ext('max')
+  x_builtins_min = _red_ext('min')
+
   def method_call(self, recv, name, args, kwargs, node, st, eng):
     d = recv.d
+    if name in ('max', 'min', 'std', 'ptp') and not args and \
+            'axis' not in kwargs:
+      return self._reduce(name, d)
+    if name in ('sum', 'mean') and not args and 'axis' not in kwargs and \
+            isinstance(d, Poly):
+      return self._reduce(name, d)
     if name == 'dot' and len(args) == 1:
       return self._dot(d, args[0].d)
     if name == 'sum':
